@@ -177,7 +177,12 @@ A(Fn(CAP, "capability_set", mod="capability", props=["C04", "C06"], ret="c", fue
          ("C04", "bytes", "ser(c.mv()) =~= caps_set_bytes(cap_type_of(capability), cap_body(capability))"),
          ("C04", "size", "ser(c.mv()).len() == cap_body(capability).len() + 4")],
      post="proof { assert(c.fields() =~= capability_set_view(cap_type_of(capability), cap_body(capability))->Comp_0); }"))
-A(Fn(CAP, "from_capability_set", impl=r"impl Capability", mod="capability", props=["C06"], keys=True,
+A(Fn(CAP, "from_capability_set", impl=r"impl Capability", mod="capability", props=["C06", "C12"], keys=True,
+     # refusal justification (MS-RDPBCGR 2.2.1.13.1.1.1 capabilitySetType): a capability set is refused as unknown only when its type is none of the twelve
+     # parsed ones (General 1, Bitmap 2, Order 3, BitmapCache 4, Pointer 8, Sound 0xC, Input 0xD, Brush 0xF, GlyphCache 0x10, OffscreenCache 0x11,
+     # VirtualChannel 0x14, MultifragmentUpdate 0x1A)
+     claims=[(r"return Err\(Error::RdpError\(RdpError::new\(RdpErrorKind::Unknown", 1, """proof { let m = capability_set.fields()[first_key(capability_set.fields(), "capabilitySetType"@)].1;
+            assert(m is U16 ==> ({ let t = m->U16_0; !(t == 1 || t == 2 || t == 3 || t == 4 || t == 8 || t == 0xC || t == 0xD || t == 0xF || t == 0x10 || t == 0x11 || t == 0x14 || t == 0x1A) })); }""", "before", "C12,C06", "unknown-only-for-other-than-the-twelve-parsed-types")],
      requires=['has_key(capability_set.fields(), "capabilitySetType"@)', 'has_key(capability_set.fields(), "capabilitySet"@)'],
      ensures=[("C06", "only-known-types", """r is Ok && capability_set.fields()[first_key(capability_set.fields(), "capabilitySetType"@)].1 is U16 ==> ({
             let t = capability_set.fields()[first_key(capability_set.fields(), "capabilitySetType"@)].1->U16_0;
